@@ -776,6 +776,10 @@ def modelGuards (entry : String) : List Stmt := (modelGuardTable.lookup entry).g
 /-- the guards of an entry point as the translator found them in the source (empty when the rows do not decode) -/
 def genGuards (entry : String) : List Stmt := ((CBV.Gen.c20Guards.lookup entry).bind decode).getD []
 
+/-- the translator could not read this entry point of the current source (marker row of `cbv/tables/c20.py`) -/
+def untranslatable (entry : String) : Bool :=
+  CBV.Gen.c20Guards.lookup entry == some [("untranslatable", 0, "")]
+
 /-- `np.shape` of the nested list the harness builds for the sizes `dims`: nothing is known below an empty level -/
 def pyShape : List Nat → List Nat
   | [] => []
@@ -896,6 +900,7 @@ def handleGuards (args : List String) : Option String :=
       let s ← parseList? ss
       let c ← callOf name r s
       let e ← entryOf c
+      if untranslatable e then return "untranslatable -"
       let t ← CBV.Gen.c20Guards.lookup e
       let g ← decode t
       if wf c then
